@@ -1,7 +1,7 @@
 """Rule instances on the two work-steal queues (shared by C01, C03, C04, C05, C06)."""
 from analysis.facts import norm
 from analysis.cfg import Cfg
-from analysis.flow import DefUse, ReachingDefs, backward, find_calls, callee_is, callee_ends, op_local, op_const, switch_info, value_root
+from analysis.flow import DefUse, ReachingDefs, backward, find_calls, callee_is, callee_ends, op_local, op_const, switch_info, value_root, field_chain
 from analysis.linear import Linear
 from analysis.atomics import AtomicModel, is_atomic_method, receiver_key, role_field
 from analysis.table import describe_val, PathWalker
@@ -642,14 +642,17 @@ def sweep_rule(run, f, rid):
         if b is None:
             continue
         du = DefUse(b)
-        g = find_calls(b, callee_is("std::collections::VecDeque::get"))
-        ok, why = False, "no VecDeque::get on the sibling list"
+        # the sibling list is a sequence indexed with get(): VecDeque, Vec or a slice -- told by the field it is read from
+        SEQ = ("std::collections::VecDeque", "std::vec::Vec", "[T]", "core::slice")
+        g = [(x, t) for (x, t) in b.calls() if norm(t.get("callee") or "").rsplit("::", 1)[-1] == "get" and norm(t.get("callee") or "").startswith(SEQ)]
+        g = [(x, t) for (x, t) in g if "local_queues" in repr(describe_val(b, du, t["args"][0])) or "local_queues" in (field_chain(b, du, t["args"][0]) or [])]
+        ok, why = False, "no get(index) on the sibling list"
         if len(g) == 1:
             gb, gt = g[0]
             sl = backward(b, gt["args"][1], du, at=(gb, "term"))
             cs = {norm(t.get("callee") or "") for (_x, t) in sl.calls}
             ops = set(sl.binops())
-            ok = ("Rem" in ops) and (("Add" in ops) or ("AddWithOverflow" in ops)) and "std::collections::VecDeque::len" in cs and "<std::ops::Range as std::iter::Iterator>::next" in cs and "rand::RngExt::random_range" in cs and not ({"Sub", "SubWithOverflow", "Mul", "MulWithOverflow", "Div", "Shr", "Shl", "BitAnd"} & ops)
+            ok = ("Rem" in ops) and (("Add" in ops) or ("AddWithOverflow" in ops)) and any(c.rsplit("::", 1)[-1] == "len" and c.startswith(SEQ) for c in cs) and "<std::ops::Range as std::iter::Iterator>::next" in cs and "rand::RngExt::random_range" in cs and not ({"Sub", "SubWithOverflow", "Mul", "MulWithOverflow", "Div", "Shr", "Shl", "BitAnd"} & ops)
             why = "ops %s, calls %s" % (sorted(ops), sorted(c.rsplit('::', 1)[1] for c in cs))
             # the range is 0..num with num = len()
             rng = [t for (_x, t) in sl.calls if norm(t.get("callee") or "") == "<std::ops::Range as std::iter::Iterator>::next"]
